@@ -72,7 +72,13 @@ fn check_triangle(a: Point, b: Point, c: Point, d: Option<Point>) -> Res {
     if orient(a, b, c) != 0 {
         for align in [StrokeAlignment::Inside, StrokeAlignment::Outside] {
             for (vo, perm) in [[a, b, c], [a, c, b], [c, b, a]].iter().enumerate() {
-                let style = PrimitiveStyleBuilder::new().fill_color(Rgb888::nth(1)).stroke_alignment(align).build();
+                // (a stroke of width 0 is no stroke, whatever its colour: none, the fill's colour, another colour)
+                let sb = PrimitiveStyleBuilder::new().fill_color(Rgb888::nth(1)).stroke_alignment(align).stroke_width(0);
+                let style = match (vo + (align == StrokeAlignment::Outside) as usize) % 3 {
+                    0 => sb.build(),
+                    1 => sb.stroke_color(Rgb888::nth(1)).build(),
+                    _ => sb.stroke_color(Rgb888::nth(2)).build(),
+                };
                 let mut t2 = NativeT::<Rgb888>::new();
                 t2.0.log = false;
                 Triangle::new(perm[0], perm[1], perm[2]).into_styled(style).draw(&mut t2).map_err(|e| Fail { sig: "triangle:draw_error".into(), detail: format!("{:?}", e) })?;
